@@ -218,9 +218,12 @@ let sample (tries : int) (keep : Z.t list) (first : Z.t list) (f : strategy -> '
   !result
 
 let allowed budget c impl =
+  (* a witness order is usually found by a few guided random runs; only when that fails is the
+     exhaustive enumeration tried, which alone can answer "no" *)
   let decide keep first f found =
-    try enumerate budget 60 f found
-    with Budget -> sample (4 * budget) keep first f found in
+    if sample 150 keep first f found = "yes" then "yes"
+    else (try enumerate budget 60 f found
+          with Budget -> sample (2 * budget) keep first f found) in
   match parse c with
   | ("sel", cs) ->
     let target = (try [Z.of_string impl] with _ -> []) in
